@@ -20,6 +20,7 @@ CONSTANTS MinEp,      \* first endpoint packet ID: 1 (the viewers) or 0 (hippoly
           Tries,      \* ReliableResendInfo.tries_left (code default 10)
           Interval,   \* Circuit.resend_every in clock units
           Reorder,
+          Disps,      \* dispositions an addon may choose: subset of {"fwd","drop","take","droptake","fwdtake"}
           W           \* window of the per-direction injection trackers (0 = never evicts within the model)
 
 D == {"OUT", "IN"}
@@ -89,6 +90,11 @@ Collect(d, ids) ==
     /\ pending' = pending \ hit
     /\ done' = done \cup {[d |-> p.d, w |-> p.w, how |-> "acked"] : p \in hit}
 
+Dropping == {"drop", "take", "droptake"}       \* the original does not travel on
+Taking == {"take", "droptake", "fwdtake"}      \* a copy made with Message.take travels as the proxy's own packet
+\* the copy's packet ID: the next free ID of its direction when it is sent
+CopyId(d, disp, w) == IF disp = "fwdtake" THEN (IF w > base[d] THEN w ELSE base[d]) + 1 ELSE base[d] + 1
+
 (***************************************************************************)
 (* An endpoint's packet passes the proxy.  kind "msg" = ordinary message,  *)
 (* "pa" = PacketAck whose Packets blocks are A2.  A1 = appended acks.      *)
@@ -110,28 +116,36 @@ EndpointSend(d, k, rel, kind, A1, A2, disp) ==
     /\ (kind = "msg" => A2 = <<>>)
     /\ Len(A1) + Len(A2) <= MaxAcks
     /\ Range(A1) \cap Range(A2) = {}
-    /\ (disp \in {"drop", "take"} /\ rel) => Cardinality(inj[r]) < MaxInj
+    /\ disp \in Disps
+    /\ (disp \in Dropping /\ rel) => Cardinality(inj[r]) < MaxInj
     \* dropping a reliable packet makes the proxy inject an ack in direction r first; the carried acks
     \* must still be above the horizon that injection leaves behind
-    /\ (disp \in {"drop", "take"} /\ rel) => \A a \in ackIds : Above(a, HorizonOf(inj[r] \cup {base[r] + 1}))
-    /\ disp = "take" => (kind = "msg" /\ Cardinality(inj[d]) < MaxInj)
+    /\ (disp \in Dropping /\ rel) => \A a \in ackIds : Above(a, HorizonOf(inj[r] \cup {base[r] + 1}))
+    /\ disp \in Taking => (kind = "msg" /\ Cardinality(inj[d]) < MaxInj)
     /\ epSent' = [epSent EXCEPT ![d] = @ \cup {k}]
     /\ epRel' = [epRel EXCEPT ![d] = IF rel THEN @ \cup {k} ELSE @]
     /\ ackedWire' = [ackedWire EXCEPT ![r] = @ \cup ackIds]
     /\ LET hit == {p \in pending : p.d = Opp(d) /\ p.w \in ackIds}
-           mine == IF disp = "take" /\ rel
-                   THEN {[d |-> d, w |-> base[d] + 1, tries |-> Tries, age |-> 0]} ELSE {}
+           mine == IF disp \in Taking /\ rel
+                   THEN {[d |-> d, w |-> CopyId(d, disp, w), tries |-> Tries, age |-> 0]} ELSE {}
        IN /\ pending' = (pending \ hit) \cup mine
           /\ done' = done \cup {[d |-> p.d, w |-> p.w, how |-> "acked"] : p \in hit}
-    /\ IF disp = "fwd"
-       THEN LET suppressed == kind = "pa" /\ T1 = <<>> /\ T2 = <<>> IN
-            /\ base' = [base EXCEPT ![d] = IF w > @ THEN w ELSE @]
+    /\ IF disp \in {"fwd", "fwdtake"}
+       THEN LET suppressed == kind = "pa" /\ T1 = <<>> /\ T2 = <<>>
+                \* disp "fwdtake": the addon sends the original on itself and then a copy of it (Message.take of
+                \* an already finalized message): the copy is a packet of the proxy's own, as for "take"
+                cpy == CopyId(d, disp, w)
+                injD == IF disp = "fwdtake" THEN {cpy} ELSE {}
+                copyOut == IF disp = "fwdtake" THEN <<Rec(d, cpy, "msg", rel, resend, <<>>, <<>>)>> ELSE <<>>
+            IN
+            /\ base' = [base EXCEPT ![d] = IF disp = "fwdtake" THEN cpy ELSE IF w > @ THEN w ELSE @]
             /\ fwdMap' = [fwdMap EXCEPT ![d] = IF \E p \in @ : p[1] = k THEN @ ELSE @ \cup {<<k, w>>}]
-            /\ delivered' = [delivered EXCEPT ![d] = IF suppressed THEN @ ELSE @ \cup {w}]
+            /\ delivered' = [delivered EXCEPT ![d] = (IF suppressed THEN @ ELSE @ \cup {w}) \cup injD]
             /\ shown' = [shown EXCEPT ![r] = @ \cup Range(T1) \cup Range(T2)]
-            /\ out' = IF suppressed THEN <<>>
-                      ELSE <<Rec(d, w, kind, rel, resend, T1, T2)>>
-            /\ UNCHANGED <<epDropped, inj>>
+            /\ out' = (IF suppressed THEN <<>>
+                       ELSE <<Rec(d, w, kind, rel, resend, T1, T2)>>) \o copyOut
+            /\ inj' = [inj EXCEPT ![d] = @ \cup injD]
+            /\ UNCHANGED epDropped
        ELSE LET new == base[r] + 1
                 ackSender == IF rel THEN <<Rec(r, new, "pa", FALSE, FALSE, <<>>, <<k>>)>> ELSE <<>>
                 \* the appended acks of the dropped packet travel on in a PacketAck of their own;
@@ -140,19 +154,20 @@ EndpointSend(d, k, rel, kind, A1, A2, disp) ==
                 \* disp "take": an addon took the message (Message.take) and sends its copy on at once.  The
                 \* copy is a packet of the proxy's own: fresh ID of direction d, no acks, and if the original
                 \* was reliable it is the proxy that must now retransmit it until it is acknowledged.
+                \* disp "droptake": the addon drops the original first and then sends a copy of it
                 cpy == base[d] + 1
-                copyOut == IF disp = "take" THEN <<Rec(d, cpy, "msg", rel, resend, <<>>, <<>>)>> ELSE <<>>
-                injD == IF disp = "take" THEN {cpy} ELSE {}
+                copyOut == IF disp \in Taking THEN <<Rec(d, cpy, "msg", rel, resend, <<>>, <<>>)>> ELSE <<>>
+                injD == IF disp \in Taking THEN {cpy} ELSE {}
                 injR == IF rel THEN {new} ELSE {}
             IN
             /\ epDropped' = [epDropped EXCEPT ![d] = @ \cup {k}]
             /\ inj' = [x \in D |-> inj[x] \cup (IF x = d THEN injD ELSE {}) \cup (IF x = r THEN injR ELSE {})]
-            /\ base' = [x \in D |-> IF x = d /\ disp = "take" THEN cpy
+            /\ base' = [x \in D |-> IF x = d /\ disp \in Taking THEN cpy
                                     ELSE IF x = r /\ rel THEN new ELSE base[x]]
             /\ delivered' = [x \in D |-> delivered[x] \cup (IF x = d THEN injD ELSE {}) \cup (IF x = r THEN injR ELSE {})]
             /\ shown' = [shown EXCEPT ![d] = IF rel THEN @ \cup {k} ELSE @,
                                       ![r] = @ \cup Range(T1)]
-            /\ out' = copyOut \o ackSender \o passOn
+            /\ out' = IF disp = "droptake" THEN ackSender \o passOn \o copyOut ELSE copyOut \o ackSender \o passOn
             /\ UNCHANGED fwdMap
     /\ quiet' = IF out' = <<>> THEN quiet ELSE 0
 
@@ -210,7 +225,7 @@ Tick(dt) ==
     /\ out' = ResendRecs(again)
     /\ UNCHANGED <<epSent, epRel, epDropped, inj, base, fwdMap, delivered, ackedWire, shown>>
 
-Next == \/ \E d \in D, k \in MinEp..MaxEp, rel \in BOOLEAN, kind \in {"msg", "pa"}, disp \in {"fwd", "drop", "take"} :
+Next == \/ \E d \in D, k \in MinEp..MaxEp, rel \in BOOLEAN, kind \in {"msg", "pa"}, disp \in Disps :
              \E A \in AckChoices(d, MaxAcks) :
                 \E n \in 0..Len(A) :      \* first n appended, the rest in PacketAck blocks
                     EndpointSend(d, k, rel, kind, SubSeq(A, 1, n), SubSeq(A, n + 1, Len(A)), disp)
